@@ -178,17 +178,30 @@ func defects(w *world, revoked, expired json.RawMessage) []defect {
 		{"empty-descriptor-map", func(w *world, s *spec) bool { s.noDesc = true; return true }},
 		{"no-credentials", func(w *world, s *spec) bool { s.creds = nil; return true }},
 		{"unknown-scope", func(w *world, s *spec) bool { s.scope = "nonexistent"; return true }},
-		{"scope-needing-other-credential", func(w *world, s *spec) bool { s.scope = "other"; s.defID = "pd_other"; s.descID = "id_other"; return true }},
+		{"scope-needing-other-credential", func(w *world, s *spec) bool {
+			s.scope = "other"
+			s.defID = "pd_other"
+			s.descID = "id_other"
+			return true
+		}},
 		{"missing-client_id", func(w *world, s *spec) bool { s.omit = append(s.omit, "client_id"); return true }},
 		{"missing-scope", func(w *world, s *spec) bool { s.omit = append(s.omit, "scope"); return true }},
 		{"missing-submission", func(w *world, s *spec) bool { s.omit = append(s.omit, "presentation_submission"); return true }},
 		{"missing-assertion", func(w *world, s *spec) bool { s.omit = append(s.omit, "assertion"); return true }},
 	}
 	if revoked != nil {
-		ds = append(ds, defect{"revoked-credential", func(w *world, s *spec) bool { s.creds = []json.RawMessage{revoked}; s.credFormat = "ldp_vc"; return true }})
+		ds = append(ds, defect{"revoked-credential", func(w *world, s *spec) bool {
+			s.creds = []json.RawMessage{revoked}
+			s.credFormat = "ldp_vc"
+			return true
+		}})
 	}
 	if expired != nil {
-		ds = append(ds, defect{"expired-credential", func(w *world, s *spec) bool { s.creds = []json.RawMessage{expired}; s.credFormat = "ldp_vc"; return true }})
+		ds = append(ds, defect{"expired-credential", func(w *world, s *spec) bool {
+			s.creds = []json.RawMessage{expired}
+			s.credFormat = "ldp_vc"
+			return true
+		}})
 	}
 	return ds
 }
@@ -384,6 +397,44 @@ func TestCheck(t *testing.T) {
 		}
 		if r2.Status == 200 || puts() != before {
 			r.Violation("C02/issued-despite/reused-nonce", "access token issued for a presentation whose nonce was seen before", map[string]any{"first": r1.String(), "second": r2.String()})
+		}
+	}
+
+	// reused nonce late in the presentation's acceptance window: a JSON-LD presentation that expires in 2 s is acceptable until
+	// expires + 5 s skew; replay it ~3 s after first use (after its own expiry, inside the skew tail). Real waiting, stopwatch-guarded.
+	for i := 0; i < r.Pick(1, 3); i++ {
+		start := time.Now()
+		expires := start.Add(2 * time.Second)
+		nonce := w.newNonce()
+		vpDoc, err := w.h1.SignLDVP(w.N, iamflow.LDVP{Created: start.Add(-time.Second), Expires: expires, Domain: w.Verifier.URL, Nonce: nonce, Credentials: []json.RawMessage{w.ldp1}})
+		if err != nil {
+			r.Fatalf("sign JSON-LD presentation: %v", err)
+		}
+		sub, _ := json.Marshal(map[string]any{"id": "late-" + nonce, "definition_id": "pd_org", "descriptor_map": []any{map[string]any{"id": "id_org", "format": "ldp_vc", "path": "$.verifiableCredential[0]"}}})
+		form := url.Values{"grant_type": {"vp_token-bearer"}, "assertion": {string(vpDoc)}, "presentation_submission": {string(sub)}, "scope": {"test"}, "client_id": {"https://client.example/oauth2/h1"}}
+		post := func() node.Resp {
+			resp, _ := node.Do("POST", w.N.Public+"/oauth2/"+w.Verifier.Name+"/token", form.Encode(), map[string]string{"Content-Type": "application/x-www-form-urlencoded"})
+			return resp
+		}
+		r1 := post()
+		r.Count("token_requests", 1)
+		if r1.Status != 200 {
+			r.Fatalf("valid JSON-LD presentation refused: %s", r1)
+		}
+		time.Sleep(time.Until(expires.Add(1200 * time.Millisecond)))
+		before := puts()
+		r2 := post()
+		late := time.Since(start)
+		r.Count("token_requests", 1)
+		r.Case("s2s/reused-nonce-in-skew-tail", true)
+		r.Distinct("defects_exercised", "reused-nonce-in-skew-tail")
+		if late > 6*time.Second {
+			r.Inconclusive(fmt.Sprintf("late replay happened %.1f s after first use (machine too slow)", late.Seconds()))
+			continue
+		}
+		if r2.Status == 200 || puts() != before {
+			r.Violation("C02/issued-despite/reused-nonce-in-skew-tail", fmt.Sprintf("access token issued for a presentation whose nonce was used %.1f s earlier (presentation past its expiry but inside the clock-skew tail)", late.Seconds()),
+				map[string]any{"first": r1.String(), "second": r2.String()})
 		}
 	}
 
